@@ -71,6 +71,9 @@ func (t *Transport) GetStreamSink(shardID uint64, replicaID uint64) *Sink {
 }
 
 func (t *Transport) getStreamSink(shardID uint64, replicaID uint64) *Sink {
+	if verifEnabled {
+		return t.verifGetStreamSink(shardID, replicaID)
+	}
 	addr, _, err := t.resolver.Resolve(shardID, replicaID)
 	if err != nil {
 		return nil
@@ -104,6 +107,9 @@ func (t *Transport) sendSnapshot(m pb.Message) bool {
 }
 
 func (t *Transport) doSendSnapshot(m pb.Message) bool {
+	if verifEnabled {
+		return t.verifDoSendSnapshot(m)
+	}
 	toReplicaID := m.To
 	shardID := m.ShardID
 	if m.Type != pb.InstallSnapshot {
